@@ -154,6 +154,76 @@ func enumInputs(x *ctx, withCycles bool, emit func(fam, name, src string, flags 
 		}
 		pick(0, nil)
 		bounds["inheritance_graphs"] = "all edge sets of size<=3 over {A,B,C}^2 x 5 uses"
+
+		// mixed graphs: classes A,B and modules M,N with superclass, include and extend edges; every
+		// entity has a method reading and writing an instance variable (lookups walk the edges)
+		type medge struct{ src, kind, dst string }
+		ents := []string{"A", "B", "M", "N"}
+		isClass := map[string]bool{"A": true, "B": true}
+		var medges []medge
+		for _, s := range ents {
+			for _, d := range ents {
+				if isClass[s] && isClass[d] {
+					medges = append(medges, medge{s, "<", d})
+				}
+				if !isClass[d] || !isClass[s] {
+					medges = append(medges, medge{s, "include", d})
+				}
+				if !isClass[d] {
+					medges = append(medges, medge{s, "extend", d})
+				}
+			}
+		}
+		muses := []string{"A.new.ma\n", "A.ma\n", "x = A.new\nx.foo\nx.mm\n"}
+		maxE := 2
+		if thorough {
+			maxE = 3
+		}
+		var mpick func(start int, chosen []medge)
+		mpick = func(start int, chosen []medge) {
+			if len(chosen) > 0 {
+				var sb strings.Builder
+				used := map[string]bool{"A": true}
+				for _, e := range chosen {
+					used[e.src], used[e.dst] = true, true
+				}
+				for _, en := range ents {
+					if !used[en] {
+						continue
+					}
+					kw := "module"
+					if isClass[en] {
+						kw = "class"
+					}
+					head := kw + " " + en
+					for _, e := range chosen {
+						if e.src == en && e.kind == "<" {
+							head += " < " + e.dst
+							break
+						}
+					}
+					sb.WriteString(head + "\n")
+					for _, e := range chosen {
+						if e.src == en && e.kind != "<" {
+							fmt.Fprintf(&sb, "  %s %s\n", e.kind, e.dst)
+						}
+					}
+					l := strings.ToLower(en)
+					fmt.Fprintf(&sb, "  def m%s\n    @v%s = 1\n    @w\n  end\nend\n", l, l)
+				}
+				for _, u := range muses {
+					emit("inherit-mixin", file, sb.String()+u, nil)
+				}
+			}
+			if len(chosen) == maxE {
+				return
+			}
+			for i := start; i < len(medges); i++ {
+				mpick(i+1, append(append([]medge{}, chosen...), medges[i]))
+			}
+		}
+		mpick(0, nil)
+		bounds["mixin_graphs"] = fmt.Sprintf("all edge sets of size<=%d over %d superclass/include/extend edges on classes A,B and modules M,N x %d uses", maxE, len(medges), len(muses))
 	}
 	return bounds
 }
@@ -162,7 +232,7 @@ func crashHang(x *ctx, prop string) {
 	r := x.run
 	r.Rule = "every token string over the token alphabets up to the stated lengths (with and without final newline), " +
 		"every corpus program, its prefixes and single-token deviations" +
-		map[string]string{"C01": "", "C02": ", every inheritance graph with <=3 edges on 3 classes"}[prop] +
+		", every inheritance graph with <=3 superclass edges on 3 classes and every graph with <=2 (thorough: 3) superclass/include/extend edges on 2 classes and 2 modules" +
 		"; each executed in process on the real analysis code; non-trivial = produced at least one output record"
 	r.Assumptions = []string{
 		"in-process engine is observationally equal to the unmodified binary (validated on a seed-rotated slice and on every candidate)",
@@ -179,7 +249,7 @@ func crashHang(x *ctx, prop string) {
 	sitesSeen := map[string]int{}
 	var bounds map[string]any
 	x.stream(func(emit func(*engine.Case)) {
-		bounds = enumInputs(x, prop == "C02", func(fam, name, src string, flags []string) {
+		bounds = enumInputs(x, true, func(fam, name, src string, flags []string) {
 			emit(&engine.Case{Files: map[string]string{name: src}, Argv: append([]string{name}, flags...), Tag: fam})
 		})
 	}, func(c *engine.Case, res *engine.Result) {
@@ -221,7 +291,9 @@ func crashHang(x *ctx, prop string) {
 			return
 		}
 		isHang := strings.HasPrefix(sig, "hang:")
-		if (prop == "C01" && isHang) || (prop == "C02" && !isHang) {
+		// C01 demands exit status 0 and only diagnostic lines: a hang (`timeout`, exit 1) violates it too.
+		// C02 is only about termination.
+		if prop == "C02" && !isHang {
 			sitesSeen["other-property:"+sig]++
 			return
 		}
